@@ -158,7 +158,7 @@ var unsafeTemplates = []tmpl{
 	{Name: "filter.lfs.required", Sec: "filter", Subs: []string{"lfs"}, Key: "required", Vals: []string{"false"}},
 	{Name: "filter.<other>.clean", Sec: "filter", Subs: []string{"evil"}, Key: "clean", Vals: []string{vProgA}},
 	{Name: "ssh.variant", Sec: "ssh", Key: "variant", Vals: []string{"simple", "putty", "tortoiseplink"}, Pref: "ssh"},
-	{Name: "user.name", Sec: "user", Key: "name", Vals: []string{"Evil Name"}},
+	{Name: "user.name", Sec: "user", Key: "name", Vals: []string{"Evil Name", "Evil \"Q\" \\ # name\twith tab"}},
 	{Name: "user.email", Sec: "user", Key: "email", Vals: []string{"evil@example.com"}},
 	{Name: "extensions.objectformat", Sec: "extensions", Key: "objectformat", Vals: []string{"sha256"}},
 	{Name: "alias.<x>", Sec: "alias", Key: "lfs", Vals: []string{"!" + vProg}},
@@ -179,7 +179,7 @@ var unsafeTemplates = []tmpl{
 var allowedTemplates = []tmpl{
 	{Name: "lfs.url", Sec: "lfs", Key: "url", Vals: []string{"http://@HOST@/@TAG@/lfscfg-url", "http://@HOST@/@TAG@/lfscfg-url-auth"}},
 	{Name: "lfs.pushurl", Sec: "lfs", Key: "pushurl", Vals: []string{"http://@HOST@/@TAG@/lfscfg-push"}},
-	{Name: "lfs.fetchexclude", Sec: "lfs", Key: "fetchexclude", Vals: []string{"*.skip", "b.bin", "a.bin,sub/"}},
+	{Name: "lfs.fetchexclude", Sec: "lfs", Key: "fetchexclude", Vals: []string{"*.skip", "b.bin", "a.bin,sub/", "sp ace/*, q\"uote\\back;semi #hash"}},
 	{Name: "lfs.fetchinclude", Sec: "lfs", Key: "fetchinclude", Vals: []string{"*.bin", "a.bin"}},
 	{Name: "lfs.gitprotocol", Sec: "lfs", Key: "gitprotocol", Vals: []string{"http", "https"}},
 	{Name: "lfs.locksverify", Sec: "lfs", Key: "locksverify", Vals: []string{"true", "false"}},
